@@ -115,10 +115,11 @@ pub struct Monitor {
     /// set when the program did something after which region tracking is no
     /// longer meaningful (RESUME label out of a subprogram)
     tainted: bool,
+    strict_end: bool,
 }
 
 impl Monitor {
-    pub fn new(gen_result: &InstructionGeneratorResult) -> Self {
+    pub fn new(gen_result: &InstructionGeneratorResult, strict_end: bool) -> Self {
         // the final Halt of the main module is the one with the synthetic position
         let final_halt_pc = gen_result.instructions.iter().position(|i| {
             matches!(i.element, Instruction::Halt) && {
@@ -136,6 +137,7 @@ impl Monitor {
             final_halt_pc,
             report: MonitorReport::default(),
             tainted: false,
+            strict_end,
         }
     }
 
@@ -240,8 +242,10 @@ impl Monitor {
             }
         }
 
-        // I3
-        if Some(pc) == self.final_halt_pc && !self.tainted {
+        // I3 (the END statement of a generated scenario is always at the top level of the
+        // main module, so it is held to the same standard as the final Halt)
+        let is_end = self.strict_end && matches!(instruction, Instruction::Halt);
+        if (Some(pc) == self.final_halt_pc || is_end) && !self.tainted {
             let only_main = self.regions.len() == 1;
             if only_main {
                 self.report.halt_checked = true;
